@@ -53,7 +53,16 @@ def w_event(name):
     return lambda p: (lambda: A.EVENT_BY_NAME[name](p))
 
 
-WRITERS = {'metric': lambda p: w_metric(p, 7), 'metric2': lambda p: w_metric(p, 8), 'location': w_location,
+def w_patient_then_remove(p):
+    """Two commits of one writer: a new patient context state, then its deletion in a context transaction of its own (entity
+    interface; the library sends no report for it, but it is a commit: a new MdibVersion)."""
+    def body():
+        A.EVENT_BY_NAME['patient-new(A)'](p)
+        A.patient_ctx_remove('first')(p)
+    return body
+
+
+WRITERS = {'patient+ctx-remove': w_patient_then_remove, 'metric': lambda p: w_metric(p, 7), 'metric2': lambda p: w_metric(p, 8), 'location': w_location,
            'rt': w_event('rt(1,2,3)'), 'alert': w_event('alert-cond(on)'), 'component': w_event('component(vmd0,on)'),
            'operational': w_event('operational(dis)'),
            'patient': w_patient, 'descr-update': w_descr_update, 'descr-create': w_descr_create,
@@ -117,6 +126,8 @@ SCENARIOS = [
     (['GetMdDescription(NEW)'], ['descr-create']),
     (['GetMdState(N2)'], ['descr-delete']),
     (['GetMdState(NEW)'], ['descr-create']),
+    (['GetContextStates'], ['patient+ctx-remove']),
+    (['GetMdib'], ['patient+ctx-remove']),
 ]
 SCENARIOS_2 = [
     (['GetMdib'], ['metric', 'metric2']),
@@ -196,8 +207,14 @@ class Run:
         self.req_bytes = {name: self._mk_request(name) for name in set(self.requests)}
         self.snaps = {self.p.mdib.mdib_version: canon.snapshot(self.p.mdib, with_lookup=False)}
 
+        self.version_reused = []
+
         def on_commit(mdib, tr):
-            self.snaps[mdib.mdib_version] = canon.snapshot(mdib, with_lookup=False)
+            snap = canon.snapshot(mdib, with_lookup=False)
+            old = self.snaps.get(mdib.mdib_version)
+            if old is not None and canon.content(old) != canon.content(snap):
+                self.version_reused.append(mdib.mdib_version)      # two commits, two contents, one MdibVersion
+            self.snaps[mdib.mdib_version] = snap
         self.p.mdib.post_commit_handler = on_commit
         self.results = {}
         for i, name in enumerate(self.requests):
@@ -244,6 +261,8 @@ class Run:
                 problems.append((f'thread-raised/{t.name.split(":")[1]}', repr(t.exc)[:200]))
         if isinstance(self.s.error, sched.Deadlock):
             problems.append(('deadlock', str(self.s.error)[:200]))
+        if self.version_reused:
+            problems.append(('one-mdib-version-names-two-contents', {'versions': self.version_reused}))
         for i, (name, res) in sorted(self.results.items()):
             p = self._judge_response(name, res)
             if p:
